@@ -27,6 +27,8 @@ mod task;
 #[cfg(test)]
 mod tests;
 pub mod timing;
+#[cfg(all(penguin_rs_verif, feature = "std"))]
+pub mod verif;
 pub mod ws;
 
 use crate::frame::{BindPayload, BindType, Frame};
@@ -463,8 +465,20 @@ impl EstablishedStreamData {
         // `Poll::Pending`, it will be woken up by the `Waker` anyway.
         self.psh_send_remaining
             .fetch_add(acknowledged, Ordering::Relaxed);
+        #[cfg(all(penguin_rs_verif, feature = "std"))]
+        crate::verif::emit(
+            crate::verif::key_of(&self.psh_send_remaining),
+            0,
+            crate::verif::Kind::AckApplied { n: acknowledged },
+        );
         // Wake up the writer if it is waiting for `Acknowledge`
         self.writer_waker.wake();
+        #[cfg(all(penguin_rs_verif, feature = "std"))]
+        crate::verif::emit(
+            crate::verif::key_of(&self.psh_send_remaining),
+            0,
+            crate::verif::Kind::AckWoke,
+        );
     }
 
     /// Disallow any `AsyncWrite` operations.
@@ -479,9 +493,21 @@ impl EstablishedStreamData {
         // We need to make sure the writer can see the new value
         // before we call `wake()`.
         let old = self.finish_sent.swap(true, Ordering::AcqRel);
+        #[cfg(all(penguin_rs_verif, feature = "std"))]
+        crate::verif::emit(
+            crate::verif::key_of(&self.psh_send_remaining),
+            0,
+            crate::verif::Kind::WriteDisallowed,
+        );
         // If there is a writer waiting for `Acknowledge`, wake it up because it will never receive one.
         // Waking it here and the user should receive a `BrokenPipe` error.
         self.writer_waker.wake();
+        #[cfg(all(penguin_rs_verif, feature = "std"))]
+        crate::verif::emit(
+            crate::verif::key_of(&self.psh_send_remaining),
+            0,
+            crate::verif::Kind::DisallowWoke,
+        );
         old
     }
 }
